@@ -38,6 +38,16 @@ theorem C16_iter_stops_when_finished (w : TW) (h : fin w.stages = true) (n fuel 
     TW.subscribeSource.loop n (fuel + 1) k w = w := by
   simp [TW.subscribeSource.loop, h]
 
+/-- … also as the second input of a two-input operator (merge, zip, …): when the
+    observer that operator hands to its second input is finished at subscription
+    time — e.g. the first input emitted synchronously and a `take` below has
+    already completed — nothing is pulled at all. -/
+theorem C16_iter_notifier_stops_when_finished (w : TW) (j : Nat) (st : St2) (nsrc : TSrc)
+    (na : Bool) (nt : Option TaskId) (hj : w.stages[j]? = some (.op2n st nsrc na nt))
+    (h : st.finished .b (fin (w.stages.drop (j + 1))) = true) (n fuel k : Nat) :
+    TW.subscribeNotifier.loopB j n (fuel + 1) k w = w := by
+  simp [TW.subscribeNotifier.loopB, hj, h]
+
 /-- The stream drivers (from_stream / from_stream_result; model of the REPAIRED
     code, DESIGN §7 finding 18) ask `is_finished()` before every `poll_next`: once
     the observer is finished a poll of the driver returns `Ready` at once, pulls
